@@ -1,0 +1,115 @@
+//go:build verif
+
+package ipam
+
+import (
+	"context"
+
+	corev1 "k8s.io/api/core/v1"
+	"k8s.io/client-go/tools/record"
+	"k8s.io/client-go/util/workqueue"
+	"k8s.io/klog/v2"
+
+	v1 "sigs.k8s.io/node-ipam-controller/pkg/apis/clustercidr/v1"
+	cidrset "sigs.k8s.io/node-ipam-controller/pkg/controller/ipam/multicidrset"
+)
+
+// Test hooks for the verification harness under /verif.
+// They are compiled only with the build tag "verif" and add no call
+// sites to production code.
+
+// VerifHandle gives the harness white-box access to an allocator.
+type VerifHandle struct {
+	r *multiCIDRRangeAllocator
+}
+
+// VerifWrap returns a handle for an allocator built by NewMultiCIDRRangeAllocator.
+func VerifWrap(a CIDRAllocator) *VerifHandle {
+	r, ok := a.(*multiCIDRRangeAllocator)
+	if !ok {
+		return nil
+	}
+	return &VerifHandle{r: r}
+}
+
+// SetQueues replaces the work queues (deterministic queues of the harness).
+func (h *VerifHandle) SetQueues(cidrQueue, nodeQueue workqueue.RateLimitingInterface) {
+	h.r.cidrQueue = cidrQueue
+	h.r.nodeQueue = nodeQueue
+}
+
+// SetRecorder replaces the event recorder.
+func (h *VerifHandle) SetRecorder(rec record.EventRecorder) {
+	h.r.recorder = rec
+}
+
+// ProcessNextNodeWorkItem runs one iteration of the node worker loop.
+func (h *VerifHandle) ProcessNextNodeWorkItem(ctx context.Context) bool {
+	return h.r.processNextNodeWorkItem(ctx)
+}
+
+// ProcessNextCIDRWorkItem runs one iteration of the ClusterCIDR worker loop.
+func (h *VerifHandle) ProcessNextCIDRWorkItem(ctx context.Context) bool {
+	return h.r.processNextCIDRWorkItem(ctx)
+}
+
+// SyncNode calls syncNode.
+func (h *VerifHandle) SyncNode(logger klog.Logger, key string) error {
+	return h.r.syncNode(logger, key)
+}
+
+// SyncClusterCIDR calls syncClusterCIDR.
+func (h *VerifHandle) SyncClusterCIDR(ctx context.Context, key string) error {
+	return h.r.syncClusterCIDR(ctx, key)
+}
+
+// WithCIDRMap calls f with the allocator's cidrMap while holding the allocator lock.
+// f must not modify the map.
+func (h *VerifHandle) WithCIDRMap(f func(m map[string][]*cidrset.ClusterCIDR)) {
+	h.r.lock.Lock()
+	defer h.r.lock.Unlock()
+	f(h.r.cidrMap)
+}
+
+// OrderedMatching calls orderedMatchingClusterCIDRs under the lock.
+func (h *VerifHandle) OrderedMatching(node *corev1.Node, occupy bool) ([]*cidrset.ClusterCIDR, error) {
+	h.r.lock.Lock()
+	defer h.r.lock.Unlock()
+	return h.r.orderedMatchingClusterCIDRs(node, occupy)
+}
+
+// MatchCIDRLabels calls matchCIDRLabels.
+func (h *VerifHandle) MatchCIDRLabels(node *corev1.Node, label string) (bool, int, error) {
+	return h.r.matchCIDRLabels(node, label)
+}
+
+// NodeSelectorKey calls nodeSelectorKey.
+func (h *VerifHandle) NodeSelectorKey(cc *v1.ClusterCIDR) (string, error) {
+	return h.r.nodeSelectorKey(cc)
+}
+
+// VerifNodeSelectorKey calls nodeSelectorKey without an allocator.
+func VerifNodeSelectorKey(cc *v1.ClusterCIDR) (string, error) {
+	return (&multiCIDRRangeAllocator{}).nodeSelectorKey(cc)
+}
+
+// VerifMatchCIDRLabels calls matchCIDRLabels without an allocator.
+func VerifMatchCIDRLabels(node *corev1.Node, label string) (bool, int, error) {
+	return (&multiCIDRRangeAllocator{}).matchCIDRLabels(node, label)
+}
+
+// VerifPQItem describes one priority queue item.
+type VerifPQItem struct {
+	ClusterCIDR     *cidrset.ClusterCIDR
+	LabelMatchCount int
+	SelectorString  string
+}
+
+// VerifLess evaluates PriorityQueue.Less on two items.
+func VerifLess(a, b VerifPQItem) bool {
+	pq := PriorityQueue{
+		&PriorityQueueItem{clusterCIDR: a.ClusterCIDR, labelMatchCount: a.LabelMatchCount, selectorString: a.SelectorString},
+		&PriorityQueueItem{clusterCIDR: b.ClusterCIDR, labelMatchCount: b.LabelMatchCount, selectorString: b.SelectorString},
+	}
+	return pq.Less(0, 1)
+}
